@@ -7,6 +7,8 @@ package net
 /*@
 guarded_by peerMessageSender.lk : peerMessageSender.s, peerMessageSender.r, peerMessageSender.invalid, peerMessageSender.singleMes
 guarded_by messageSenderImpl.smlk : messageSenderImpl.strmap
+# the map never holds a nil sender (proved at every unlock of the map lock)
+lockinv messageSenderImpl.smlk : self.strmap != nil && allT(q, peer.ID, imp(has(self.strmap, q), self.strmap[q] != nil))
 immutable "context.Canceled"
 immutable "github.com/libp2p/go-libp2p-kad-dht/internal/net.ErrReadTimeout"
 
@@ -84,8 +86,37 @@ funclit 0 in (m *messageSenderImpl) OnDisconnect(ctx context.Context, p peer.ID)
   props C11
   ghost at before call(invalidate): assert(held(ms.lk))
 
+# A read reports success only when the reader goroutine delivered its verdict
+# and that verdict was "no error": the timeout arm and the cancellation arm
+# always fail (ErrReadTimeout / the context's error), so a request whose reply
+# did not arrive in time fails instead of consuming a later reply.
+# recv_delivers: the reader sends exactly one verdict before its deferred close
+# of the 1-buffered channel (proved for the literal below) and this function
+# receives at most once - so the receive obtains that verdict (ASSUMED).
+axiom errreadtimeout_nonnil: ErrReadTimeout != nil
 func (ms *peerMessageSender) ctxReadMsg(ctx context.Context, mes *pb.Message) error
   props C11 C10
   holds ms.lk
+  recv_delivers errc
+  ghostvar $got bool = false
+  ghostvar $verdict error = nil
   modifies *
+  ensures [internal-success-only-on-a-delivered-clean-read] imp(result == nil, $got && $verdict == nil)
+  ghost at recv(errc): $got = true; $verdict = $msg
+
+funclit 0 in (ms *peerMessageSender) ctxReadMsg(ctx context.Context, mes *pb.Message) error
+  props C11
+  ghostvar $sent int = 0
+  ensures [internal-exactly-one-verdict-then-close] $sent == 1 && tagged("closed:errc")
+  ghost at send(errc): $sent = $sent + 1
+
+# At most one sender per peer in the map: a failed fresh sender removes the
+# map entry only if the entry is still ITS OWN (a disconnect may have removed
+# it and another request installed a live one meanwhile); every map access is
+# under the map lock.
+func (m *messageSenderImpl) messageSenderForPeer(ctx context.Context, p peer.ID) (*peerMessageSender, error)
+  props C11
+  modifies *
+  ensures [a-sender-or-an-error] imp(result1 == nil, result0 != nil)
+  ghost at before call(delete): assert(held(m.smlk) && $arg0 == m.strmap && $arg1 == p && has(m.strmap, p) && m.strmap[p] == ms)
 @*/
